@@ -18,7 +18,7 @@ StartOpts == {[dl |-> d, stop |-> p, nb |-> FALSE, rin |-> 0, rout |-> 0, rerr |
 FailOpts == {[dl |-> 0, stop |-> NoStop, nb |-> FALSE, rin |-> 0, rout |-> 0, rerr |-> 0, input |-> -1,
               term |-> 0, self |-> FALSE, prog |-> "/nonexistent"]}
 
-Next ==
+NextL ==
   \/ ncalls = 0 /\ New(1)
   \/ ncalls = 1 /\ \E o \in StartOpts \cup FailOpts : Start(1, o)
   \/ ncalls = 2 /\ life[1] = "run" /\ (Wait(1, 0) \/ Terminate(1))
@@ -29,6 +29,9 @@ Next ==
   \/ \E c \in ExitCodes : ChildExit(1, c)
   \/ ChildDie(1)
   \/ Interrupt
+\* a child that closes its exit handle and lives on: destroy's wait then lasts until the child really ends, it is not signalled
+\* in the meantime (the library is blocked reaping); kept out of the liveness check below, where it means "never returns"
+Next == NextL \/ ChildCloseX(1)
 
 Spec == Init /\ [][Next]_vars
 Export == ExportRet
@@ -49,7 +52,7 @@ DefaultTermNotEarly ==
 (* liveness (checked without VIEW, under fairness): with the default policy, a deadline and a child *)
 (* that dies on SIGTERM, destroy returns.                                                            *)
 Fair == WF_vars(Tick) /\ WF_vars(Resume) /\ WF_vars(ChildDie(1))
-FairSpec == Init /\ [][Next]_vars /\ Fair
+FairSpec == Init /\ [][NextL]_vars /\ Fair
 DefaultDestroyReturns ==
   (fr.fn = "destroy" /\ opt[1].stop = Defaulted(NoStop) /\ opt[1].dl # INF /\ ch[1].term # 2 /\ now + TermDelay <= MaxTime)
      ~> (fr.fn = "none")   \* (the last conjunct keeps the bounded clock from cutting the behaviour short)
